@@ -147,7 +147,7 @@ impl<T: Merge> IdRanges<T> {
     @*/
 
     // (not called by the decoders any more: kept so that a regression to `IdRanges::from_raw(..)` still assembles and FAILS)
-    /*@extract yrs/src/ids.rs | impl<T: Merge> IdRanges<T> | fn from_raw | label=idranges_from_raw
+    /*@extract yrs/src/ids.rs | impl<T: Merge> IdRanges<T> | fn from_raw
     @ret r
     @sig
         ensures r@ == raw@,
@@ -407,6 +407,41 @@ pub open spec fn same_except<T>(a: Map<ClientID, Seq<Ent<T>>>, b: Map<ClientID, 
     forall|c: ClientID| c != k ==> (#[trigger] a.contains_key(c) == b.contains_key(c)) && (a.contains_key(c) ==> a[c] == b[c])
 }
 
+/// the clock interval [clock, clock + len) (text of unit ids_lift)
+pub open spec fn in_block(clock: u32, len: u32, k: int) -> bool {
+    clock <= k < clock + len
+}
+
+/*@extract yrs/src/block.rs | - | struct ID @*/
+
+impl ID {
+    /*@extract yrs/src/block.rs | impl ID | fn new | label=id_new
+    @ret r
+    @sig
+        ensures r.client == client, r.clock == clock,
+    @*/
+}
+
+pub mod vx_std_sort3 {
+    use vstd::prelude::*;
+    use core::ops::Range;
+    use super::ClientID;
+
+    /// A10 (TRUSTED std stand-in): `ranges.sort_unstable_by_key(|(client, range)| (*client, range.start))` (the body is that
+    /// statement).  slice::sort_unstable_by_key: the result is a permutation of the input (same multiset) ordered by the key,
+    /// here the pair (client, start) in the derived lexicographic order (ClientID: the order of its integer).
+    #[verifier::external_body]
+    pub fn vx_sort_by_client_start(v: &mut Vec<(ClientID, Range<u32>)>)
+        ensures
+            final(v)@.to_multiset() == old(v)@.to_multiset(),
+            forall|i: int, j: int| 0 <= i < j < final(v)@.len() ==> (#[trigger] final(v)@[i]).0.0 < (#[trigger] final(v)@[j]).0.0
+                || (final(v)@[i].0.0 == final(v)@[j].0.0 && final(v)@[i].1.start <= final(v)@[j].1.start),
+    {
+        v.sort_unstable_by_key(|(client, range)| (*client, range.start));
+    }
+}
+use vx_std_sort3::*;
+
 impl IdSet {
     pub open spec fn view(&self) -> Map<ClientID, Seq<Ent<()>>> {
         self.0@
@@ -418,7 +453,23 @@ impl IdSet {
         ensures r@ == Map::<ClientID, Seq<Ent<()>>>::empty(),
     @*/
 
-    // STUB: proved in unit ids_lift, label idset_insert_range (contract text cross-checked by the extractor on every run)
+    // STUB: proved in unit ids_lift, label idset_insert (contract text cross-checked by the extractor on every run).  The
+    // unverified body reaches the std entry API through `clients_mut()` (IdMapInner::entry returns a std Entry: not ingestible)
+    #[verifier::external_body]
+    /*@extract yrs/src/id_set.rs | impl IdSet | fn insert | label=stub_idset_insert | rules=SUB(from=.entry(id.client);;to=.clients_mut().entry(id.client))
+    @sig
+        requires
+            wf_map(old(self)@),
+            id.clock + len <= u32::MAX,
+        ensures
+            wf_map(final(self)@),
+            same_except(final(self)@, old(self)@, id.client),
+            forall|c: ClientID, k: int| #![trigger has_pt(final(self)@, c, k)] #![trigger has_pt(old(self)@, c, k)]
+                has_pt(final(self)@, c, k) <==> has_pt(old(self)@, c, k) || (c == id.client && in_block(id.clock, len, k)),
+    @*/
+
+    // STUB: proved in unit ids_lift, label idset_insert_range (contract text cross-checked by the extractor on every run);
+    // not called by `IdSet::decode` any more: kept so that a regression to `insert_range` still assembles
     #[verifier::external_body]
     /*@extract yrs/src/id_set.rs | impl IdSet | fn insert_range | label=stub_idset_insert_range
     @sig
@@ -537,33 +588,110 @@ pub open spec fn section_raw<D: Decoder>(sb: Seq<u8>, rng: Seq<Ent<()>>) -> Seq<
     if D::v1() { dec_ranges(sb)->Some_0.0 } else { rng }
 }
 
-/// one iteration of `IdSet::decode` (the contract of `insert_range` is the hypotheses about m0 / m1)
-pub proof fn lemma_idset_step(m0: Map<ClientID, Seq<Ent<()>>>, m1: Map<ClientID, Seq<Ent<()>>>, client: ClientID, rng: Seq<Ent<()>>, raw: Seq<Ent<()>>,
-    items: Seq<IdItem>)
+/// the FLAT list `IdSet::decode` collects: one (client, range) pair per decoded range of every section
+pub type Flat = Seq<(ClientID, Range<u32>)>;
+
+/// the point (c, k) lies in one of the first `n` pairs
+pub open spec fn flat_pt(f: Flat, n: int, c: ClientID, k: int) -> bool {
+    exists|j: int| 0 <= j < n && j < f.len() && (#[trigger] f[j]).0 == c && inr(f[j].1, k)
+}
+
+/// every collected range has start <= end (so `range.end - range.start` does not underflow and the block fits the clock space)
+pub open spec fn flat_ordered(f: Flat) -> bool {
+    forall|j: int| 0 <= j < f.len() ==> (#[trigger] f[j]).1.start <= f[j].1.end
+}
+
+/// clock `k` lies in one of the first `n` ranges of the section `rng`
+pub open spec fn sec_upto(rng: Seq<Ent<()>>, n: int, k: int) -> bool {
+    exists|j: int| 0 <= j < n && j < rng.len() && inr((#[trigger] rng[j]).0, k)
+}
+
+/// the wire-level part of the loop invariant of `IdSet::decode` after `n` sections (`items`, `kk` bytes of the list consumed)
+pub open spec fn idset_inv<D: Decoder>(s0: Seq<u8>, s1: Seq<u8>, rest: Seq<u8>, client_len: u32, n: int, items: Seq<IdItem>, kk: nat) -> bool {
+    &&& suffix_of(s0, s1)
+    &&& suffix_of(s1, rest)
+    &&& s1.len() < s0.len()
+    &&& 0 <= n <= client_len
+    &&& items.len() == n
+    &&& D::v1() ==> dec_u32(s0) is Some && dec_u32(s0)->Some_0.0 == client_len && s1 == s0.skip(dec_u32(s0)->Some_0.1 as int)
+    &&& D::v1() ==> kk <= s1.len() && rest == s1.skip(kk as int)
+            && dec_list(idset_item(), s1, client_len as nat) == list_join(items, kk, dec_list(idset_item(), rest, (client_len - n) as nat))
+}
+
+/// flattening one more range of the current section
+pub proof fn lemma_flat_push(f: Flat, cid: ClientID, rng: Seq<Ent<()>>, n: int, items: Seq<IdItem>)
     requires
-        same_except(m1, m0, client),
-        forall|c: ClientID, k: int| #![trigger has_pt(m1, c, k)] #![trigger has_pt(m0, c, k)] has_pt(m1, c, k) <==> has_pt(m0, c, k) || (c == client && covers(rng, k)),
-        forall|k: int| #![trigger covers(rng, k)] #![trigger covers(raw, k)] covers(rng, k) <==> covers(raw, k),
-        forall|c: ClientID, k: int| #![trigger has_pt(m0, c, k)] has_pt(m0, c, k) <==> items_pt(items, items.len() as int, c, k),
-        m0.dom().finite(),
+        0 <= n < rng.len(),
+        forall|c: ClientID, k: int| #![trigger flat_pt(f, f.len() as int, c, k)] flat_pt(f, f.len() as int, c, k) <==> items_pt(items, items.len() as int, c, k) || (c == cid && sec_upto(rng, n, k)),
     ensures
-        forall|c: ClientID, k: int| #![trigger has_pt(m1, c, k)] has_pt(m1, c, k) <==> items_pt(items.push((client, raw)), (items.len() + 1) as int, c, k),
-        m1.dom().finite(),
-        m1.len() <= m0.len() + 1,
+        forall|c: ClientID, k: int| #![trigger flat_pt(f.push((cid, rng[n].0)), (f.len() + 1) as int, c, k)]
+            flat_pt(f.push((cid, rng[n].0)), (f.len() + 1) as int, c, k) <==> items_pt(items, items.len() as int, c, k) || (c == cid && sec_upto(rng, n + 1, k)),
 {
-    let items1 = items.push((client, raw));
+    let f1 = f.push((cid, rng[n].0));
+    let m = f.len() as int;
+    assert forall|c: ClientID, k: int| #![trigger flat_pt(f1, m + 1, c, k)]
+        flat_pt(f1, m + 1, c, k) <==> items_pt(items, items.len() as int, c, k) || (c == cid && sec_upto(rng, n + 1, k)) by {
+        assert(flat_pt(f, m, c, k) <==> items_pt(items, items.len() as int, c, k) || (c == cid && sec_upto(rng, n, k)));
+        if flat_pt(f1, m + 1, c, k) {
+            let j = choose|j: int| 0 <= j < m + 1 && j < f1.len() && (#[trigger] f1[j]).0 == c && inr(f1[j].1, k);
+            if j < m {
+                assert(f1[j] == f[j]);
+                assert(0 <= j < m && j < f.len() && f[j].0 == c && inr(f[j].1, k));
+                if c == cid && sec_upto(rng, n, k) {
+                    let i = choose|i: int| 0 <= i < n && i < rng.len() && inr((#[trigger] rng[i]).0, k);
+                    assert(0 <= i < n + 1 && i < rng.len() && inr(rng[i].0, k));
+                }
+            } else {
+                assert(f1[j] == (cid, rng[n].0));
+                assert(0 <= n < n + 1 && n < rng.len() && inr(rng[n].0, k));
+            }
+        }
+        if flat_pt(f, m, c, k) {
+            let j = choose|j: int| 0 <= j < m && j < f.len() && (#[trigger] f[j]).0 == c && inr(f[j].1, k);
+            assert(f1[j] == f[j]);
+            assert(0 <= j < m + 1 && j < f1.len() && f1[j].0 == c && inr(f1[j].1, k));
+        }
+        if c == cid && sec_upto(rng, n + 1, k) {
+            let i = choose|i: int| 0 <= i < n + 1 && i < rng.len() && inr((#[trigger] rng[i]).0, k);
+            if i < n {
+                assert(0 <= i < n && i < rng.len() && inr(rng[i].0, k));
+            } else {
+                assert(f1[m] == (cid, rng[n].0));
+                assert(0 <= m < m + 1 && m < f1.len() && f1[m].0 == c && inr(f1[m].1, k));
+            }
+        }
+    }
+}
+
+/// a section is flattened completely: the flat list describes the sections read so far, including this one
+pub proof fn lemma_flat_section_done(f: Flat, cid: ClientID, rng: Seq<Ent<()>>, raw: Seq<Ent<()>>, items: Seq<IdItem>)
+    requires
+        forall|c: ClientID, k: int| #![trigger flat_pt(f, f.len() as int, c, k)] flat_pt(f, f.len() as int, c, k) <==> items_pt(items, items.len() as int, c, k) || (c == cid && sec_upto(rng, rng.len() as int, k)),
+        forall|k: int| #![trigger covers(rng, k)] #![trigger covers(raw, k)] covers(rng, k) <==> covers(raw, k),
+    ensures
+        forall|c: ClientID, k: int| #![trigger flat_pt(f, f.len() as int, c, k)] flat_pt(f, f.len() as int, c, k) <==> items_pt(items.push((cid, raw)), (items.len() + 1) as int, c, k),
+{
+    let items1 = items.push((cid, raw));
     let n = items.len() as int;
-    assert forall|c: ClientID, k: int| #![trigger has_pt(m1, c, k)] has_pt(m1, c, k) <==> items_pt(items1, n + 1, c, k) by {
-        assert(has_pt(m1, c, k) <==> has_pt(m0, c, k) || (c == client && covers(rng, k)));
-        assert(has_pt(m0, c, k) <==> items_pt(items, n, c, k));
+    assert forall|c: ClientID, k: int| #![trigger flat_pt(f, f.len() as int, c, k)] flat_pt(f, f.len() as int, c, k) <==> items_pt(items1, n + 1, c, k) by {
+        assert(flat_pt(f, f.len() as int, c, k) <==> items_pt(items, n, c, k) || (c == cid && sec_upto(rng, rng.len() as int, k)));
         assert(covers(rng, k) <==> covers(raw, k));
+        if sec_upto(rng, rng.len() as int, k) {
+            let i = choose|i: int| 0 <= i < rng.len() && i < rng.len() && inr((#[trigger] rng[i]).0, k);
+            assert(inr(rng[i].0, k));
+            assert(covers(rng, k));
+        }
+        if covers(rng, k) {
+            let i = idx_of(rng, k);
+            assert(0 <= i < rng.len() && i < rng.len() && inr(rng[i].0, k));
+        }
         if items_pt(items, n, c, k) {
             let i = choose|i: int| 0 <= i < n && i < items.len() && (#[trigger] items[i]).0 == c && covers(items[i].1, k);
             assert(items1[i] == items[i]);
             assert(0 <= i < n + 1 && i < items1.len() && items1[i].0 == c && covers(items1[i].1, k));
         }
-        if c == client && covers(raw, k) {
-            assert(items1[n] == (client, raw));
+        if c == cid && covers(raw, k) {
+            assert(items1[n] == (cid, raw));
             assert(0 <= n < n + 1 && n < items1.len() && items1[n].0 == c && covers(items1[n].1, k));
         }
         if items_pt(items1, n + 1, c, k) {
@@ -572,27 +700,107 @@ pub proof fn lemma_idset_step(m0: Map<ClientID, Seq<Ent<()>>>, m1: Map<ClientID,
                 assert(items1[i] == items[i]);
                 assert(0 <= i < n && i < items.len() && items[i].0 == c && covers(items[i].1, k));
             } else {
-                assert(items1[i] == (client, raw));
+                assert(items1[i] == (cid, raw));
             }
         }
     }
-    assert(m1.dom().subset_of(m0.dom().insert(client))) by {
-        assert forall|c: ClientID| m1.dom().contains(c) implies m0.dom().insert(client).contains(c) by {
-            if c != client {
+}
+
+/// a permutation of the flat list describes the same points and keeps start <= end
+pub proof fn lemma_flat_perm(a: Flat, b: Flat)
+    requires
+        a.to_multiset() == b.to_multiset(),
+        flat_ordered(b),
+    ensures
+        a.len() == b.len(),
+        flat_ordered(a),
+        forall|c: ClientID, k: int| #![trigger flat_pt(a, a.len() as int, c, k)] flat_pt(a, a.len() as int, c, k) <==> flat_pt(b, b.len() as int, c, k),
+{
+    a.to_multiset_ensures();
+    b.to_multiset_ensures();
+    assert forall|j: int| 0 <= j < a.len() implies (#[trigger] a[j]).1.start <= a[j].1.end by {
+        assert(a.contains(a[j]));
+        assert(b.to_multiset().count(a[j]) > 0);
+        assert(b.contains(a[j]));
+        let i = choose|i: int| 0 <= i < b.len() && b[i] == a[j];
+        assert(b[i].1.start <= b[i].1.end);
+    }
+    assert forall|c: ClientID, k: int| #![trigger flat_pt(a, a.len() as int, c, k)] flat_pt(a, a.len() as int, c, k) <==> flat_pt(b, b.len() as int, c, k) by {
+        if flat_pt(a, a.len() as int, c, k) {
+            let j = choose|j: int| 0 <= j < a.len() && j < a.len() && (#[trigger] a[j]).0 == c && inr(a[j].1, k);
+            assert(a.contains(a[j]));
+            assert(b.to_multiset().count(a[j]) > 0);
+            assert(b.contains(a[j]));
+            let i = choose|i: int| 0 <= i < b.len() && b[i] == a[j];
+            assert(0 <= i < b.len() && i < b.len() && b[i].0 == c && inr(b[i].1, k));
+        }
+        if flat_pt(b, b.len() as int, c, k) {
+            let j = choose|j: int| 0 <= j < b.len() && j < b.len() && (#[trigger] b[j]).0 == c && inr(b[j].1, k);
+            assert(b.contains(b[j]));
+            assert(a.to_multiset().count(b[j]) > 0);
+            assert(a.contains(b[j]));
+            let i = choose|i: int| 0 <= i < a.len() && a[i] == b[j];
+            assert(0 <= i < a.len() && i < a.len() && a[i].0 == c && inr(a[i].1, k));
+        }
+    }
+}
+
+/// one iteration of the inserting loop `for (client, range) in ranges { set.insert(ID::new(client, range.start), range.end - range.start) }`
+/// (the contract of `IdSet::insert` is the hypotheses about m0 / m1)
+pub proof fn lemma_flat_insert_step(m0: Map<ClientID, Seq<Ent<()>>>, m1: Map<ClientID, Seq<Ent<()>>>, f: Flat, n: int, len: u32)
+    requires
+        0 <= n < f.len(),
+        f[n].1.start <= f[n].1.end,
+        len == f[n].1.end - f[n].1.start,
+        same_except(m1, m0, f[n].0),
+        forall|c: ClientID, k: int| #![trigger has_pt(m1, c, k)] #![trigger has_pt(m0, c, k)] has_pt(m1, c, k) <==> has_pt(m0, c, k) || (c == f[n].0 && in_block(f[n].1.start, len, k)),
+        forall|c: ClientID, k: int| #![trigger has_pt(m0, c, k)] has_pt(m0, c, k) <==> flat_pt(f, n, c, k),
+        m0.dom().finite(),
+        m0.len() <= n,
+    ensures
+        forall|c: ClientID, k: int| #![trigger has_pt(m1, c, k)] has_pt(m1, c, k) <==> flat_pt(f, n + 1, c, k),
+        m1.dom().finite(),
+        m1.len() <= n + 1,
+{
+    let cid = f[n].0;
+    assert forall|c: ClientID, k: int| #![trigger has_pt(m1, c, k)] has_pt(m1, c, k) <==> flat_pt(f, n + 1, c, k) by {
+        assert(has_pt(m1, c, k) <==> has_pt(m0, c, k) || (c == cid && in_block(f[n].1.start, len, k)));
+        assert(has_pt(m0, c, k) <==> flat_pt(f, n, c, k));
+        assert(in_block(f[n].1.start, len, k) <==> inr(f[n].1, k));
+        if flat_pt(f, n, c, k) {
+            let j = choose|j: int| 0 <= j < n && j < f.len() && (#[trigger] f[j]).0 == c && inr(f[j].1, k);
+            assert(0 <= j < n + 1 && j < f.len() && f[j].0 == c && inr(f[j].1, k));
+        }
+        if c == cid && inr(f[n].1, k) {
+            assert(0 <= n < n + 1 && n < f.len() && f[n].0 == c && inr(f[n].1, k));
+        }
+        if flat_pt(f, n + 1, c, k) {
+            let j = choose|j: int| 0 <= j < n + 1 && j < f.len() && (#[trigger] f[j]).0 == c && inr(f[j].1, k);
+            if j < n {
+                assert(0 <= j < n && j < f.len() && f[j].0 == c && inr(f[j].1, k));
+            }
+        }
+    }
+    assert(m1.dom().subset_of(m0.dom().insert(cid))) by {
+        assert forall|c: ClientID| m1.dom().contains(c) implies m0.dom().insert(cid).contains(c) by {
+            if c != cid {
                 assert(m1.contains_key(c) == m0.contains_key(c));
             }
         }
     }
-    vstd::set_lib::lemma_len_subset(m1.dom(), m0.dom().insert(client));
+    vstd::set_lib::lemma_len_subset(m1.dom(), m0.dom().insert(cid));
 }
 
 impl Decode for IdSet {
-    // (a) TOTAL + PROGRESS: every iteration consumes >= 2 bytes (invariant `decoder.rest().len() + 2 * i <= s1.len()`)
-    //     the client id goes through `ClientID::decode` (F-DC-2, repaired): a value >= 2^53 is an error
-    // (c) RESULT SHAPE: at most (consumed bytes) / 2 clients; the REPRESENTATION INVARIANT of unit ids_lift (F-DC-9, repaired:
-    //     `insert_range`): every stored entry canonical and non-empty
+    // (a) TOTAL + PROGRESS: every section consumes >= 2 bytes and >= 2 bytes per decoded range (invariant
+    //     `decoder.rest().len() + 2 * i + 2 * ranges.len() <= s1.len()`: the FLAT list is proportional to the input), the inserting
+    //     loop runs once per collected range; `range.end - range.start` does not underflow.
+    //     The client id goes through `ClientID::decode` (F-DC-2, repaired): a value >= 2^53 is an error
+    // (c) RESULT SHAPE: at most (consumed bytes) / 2 clients; the REPRESENTATION INVARIANT of unit ids_lift (F-DC-9, repaired):
+    //     every stored entry canonical and non-empty (through the proved contract of `IdSet::insert`)
     // (d) v1: the point set is the union of the decoded client sections (`idset_of`; repeated clients are merged)
-    /*@extract yrs/src/id_set.rs | impl Decode for IdSet | fn decode | label=idset_decode
+    //     F-DC-15 (repaired): all ranges are collected, sorted by (client, start) and inserted one by one (tail path)
+    /*@extract yrs/src/id_set.rs | impl Decode for IdSet | fn decode | label=idset_decode | rules=INLINE(file=yrs/src/ids.rs;;container=impl<T: Merge> IdRanges<T>;;fn=iter;;body=self.0.iter();;call=range.iter();;to=range.0.iter())
     @ret res
     @sig
         ensures
@@ -619,19 +827,11 @@ impl Decode for IdSet {
         invariant
             s0 == old(decoder).rest(),
             decoder.wf(),
-            suffix_of(s0, s1),
-            suffix_of(s1, decoder.rest()),
-            s1.len() < s0.len(),
-            0 <= i <= client_len,
-            items.len() == i,
-            wf_map(set@),
-            set@.dom().finite(),
-            set@.len() <= i,
-            forall|c: ClientID, k: int| #![trigger has_pt(set@, c, k)] has_pt(set@, c, k) <==> items_pt(items, items.len() as int, c, k),
-            decoder.rest().len() + 2 * i <= s1.len(),
-            D::v1() ==> dec_u32(s0) is Some && dec_u32(s0)->Some_0.0 == client_len && s1 == s0.skip(dec_u32(s0)->Some_0.1 as int),
-            D::v1() ==> kk <= s1.len() && decoder.rest() == s1.skip(kk as int)
-                && dec_list(idset_item(), s1, client_len as nat) == list_join(items, kk, dec_list(idset_item(), decoder.rest(), (client_len - i) as nat)),
+            set@ == Map::<ClientID, Seq<Ent<()>>>::empty(),
+            idset_inv::<D>(s0, s1, decoder.rest(), client_len, i as int, items, kk),
+            decoder.rest().len() + 2 * i + 2 * ranges@.len() <= s1.len(),
+            flat_ordered(ranges@),
+            forall|c: ClientID, k: int| #![trigger flat_pt(ranges@, ranges@.len() as int, c, k)] flat_pt(ranges@, ranges@.len() as int, c, k) <==> items_pt(items, items.len() as int, c, k),
         decreases client_len - i,
     @after 1 `stmt:call reset_ds_cur_val`
         let ghost sa = decoder.rest();
@@ -656,23 +856,81 @@ impl Decode for IdSet {
             }
         }
     @after 1 `stmt:let range`
-        let ghost m0 = set@;
         let ghost rng = range@;
         let ghost raw = section_raw::<D>(sb, rng);
+        let ghost f0 = ranges@;
+        let ghost items0 = items;
         proof {
             lemma_suffix_step(s0, sb, decoder.rest());
-        }
-    @loopend 1
-        proof {
-            let cid = ClientID(client);
-            lemma_idset_step(m0, set@, cid, rng, raw, items);
-            items = items.push((cid, raw));
             lemma_suffix_step(s1, sb, decoder.rest());
+        }
+    @after 2 `stmt:let client`
+        proof {
+            // the section is complete on the wire: account for it now, the flattening loop does not touch the reader
+            items = items.push((client, raw));
             if D::v1() {
                 assert(dec_idset_item(sa) == idset_item()(sa));
                 kk = kk + dec_idset_item(sa)->Some_0.1;
             }
+            assert(idset_inv::<D>(s0, s1, decoder.rest(), client_len, i + 1, items, kk));
+            assert(!sec_upto(rng, 0, 0) || true);
+            assert forall|c: ClientID, k: int| #![trigger flat_pt(f0, f0.len() as int, c, k)] flat_pt(f0, f0.len() as int, c, k) <==> items_pt(items0, items0.len() as int, c, k) || (c == client && sec_upto(rng, 0, k)) by {}
         }
+    @loop 2 iter=it2
+        invariant
+            s0 == old(decoder).rest(),
+            decoder.wf(),
+            set@ == Map::<ClientID, Seq<Ent<()>>>::empty(),
+            i < client_len,
+            items == items0.push((client, raw)),
+            idset_inv::<D>(s0, s1, decoder.rest(), client_len, i + 1, items, kk),
+            decoder.rest().len() + 2 * (i + 1) + 2 * (f0.len() + rng.len()) <= s1.len(),
+            canon(rng),
+            forall|k: int| #![trigger covers(rng, k)] #![trigger covers(raw, k)] covers(rng, k) <==> covers(raw, k),
+            it2.seq().len() == rng.len(),
+            forall|j: int| 0 <= j < rng.len() ==> *(#[trigger] it2.seq()[j]) == rng[j],
+            0 <= it2.index@ <= rng.len(),
+            ranges@.len() == f0.len() + it2.index@,
+            flat_ordered(ranges@),
+            forall|c: ClientID, k: int| #![trigger flat_pt(ranges@, ranges@.len() as int, c, k)] flat_pt(ranges@, ranges@.len() as int, c, k) <==> items_pt(items0, items0.len() as int, c, k) || (c == client && sec_upto(rng, it2.index@ as int, k)),
+    @loopstart 2
+        let ghost fa = ranges@;
+        let ghost n2 = it2.index@ as int;
+        proof {
+            assert(*it2.seq()[n2] == rng[n2]);
+            assert(rng[n2].0.start < rng[n2].0.end);
+        }
+    @loopend 2
+        proof {
+            lemma_flat_push(fa, client, rng, n2, items0);
+            assert(ranges@ == fa.push((client, rng[n2].0)));
+        }
+    @afterloop 2
+        proof { lemma_flat_section_done(ranges@, client, rng, raw, items0); }
+    @afterloop 1
+        let ghost flat0 = ranges@;
+    @before 2 `stmt:for`
+        let ghost fs = ranges@;
+        proof { lemma_flat_perm(fs, flat0); }
+    @loop 3 iter=it3
+        invariant
+            s0 == old(decoder).rest(),
+            decoder.wf(),
+            idset_inv::<D>(s0, s1, decoder.rest(), client_len, client_len as int, items, kk),
+            decoder.rest().len() + 2 * client_len + 2 * fs.len() <= s1.len(),
+            it3.seq() == fs,
+            flat_ordered(fs),
+            forall|c: ClientID, k: int| #![trigger flat_pt(fs, fs.len() as int, c, k)] flat_pt(fs, fs.len() as int, c, k) <==> items_pt(items, items.len() as int, c, k),
+            wf_map(set@),
+            set@.dom().finite(),
+            set@.len() <= it3.index@ <= fs.len(),
+            forall|c: ClientID, k: int| #![trigger has_pt(set@, c, k)] has_pt(set@, c, k) <==> flat_pt(fs, it3.index@ as int, c, k),
+    @loopstart 3
+        let ghost m0 = set@;
+        let ghost n3 = it3.index@ as int;
+        proof { assert(fs[n3].1.start <= fs[n3].1.end); }
+    @loopend 3
+        proof { lemma_flat_insert_step(m0, set@, fs, n3, (fs[n3].1.end - fs[n3].1.start) as u32); }
     @before 1 `stmt:call Ok`
         proof {
             lemma_suffix_step(s0, s1, decoder.rest());
